@@ -36,7 +36,7 @@ def python_and_constants(ctx, n_cases):
                 comp = sut_compiler.compile_schema(root, d, ["py", "go", "c"], rng=rng)
                 mods = sut_py.PyModules(d, root)
             except Exception as e:
-                res.count("skipped_compile_error")
+                harness.compile_failed(res, e, wit)
                 continue
             wit["schema"] = pycommon.describe(root, comp["paths"])
             res.case(gen.is_nontrivial(gen.schema_signature(root)), wit["schema"])
